@@ -3,6 +3,7 @@ import Secp.Proofs.ScalarApiTiesArith
 import Secp.Proofs.ScalarApiTiesTests
 import Secp.Proofs.ElementApiTies
 import Secp.Proofs.ElementApiTiesEq
+import Secp.Proofs.ElementApiTiesConstr
 /-!
 # C10 — any history of element and scalar operations matches the abstract group model
 
